@@ -164,7 +164,13 @@ AckedAfter(gh, before, after, ev, n) ==
     LET a0 == gh.acked[n]
         a1 == IF IsAppendAck(ev) /\ ev.j = n THEN Max(a0, ev.req.prev + ev.req.n) ELSE a0
         \* a running node may legitimately truncate acknowledged (uncommitted) entries on a conflict, or replace its log by a snapshot
-    IN IF SameInc(before[n], after[n]) THEN Min(a1, Max(Last(after[n]), after[n].snapIdx)) ELSE a1
+        \* a node killed INSIDE the append handler (crash point after the truncation of a conflicting suffix): what was cut
+        \* above the request's prevLogIndex was cut on the leader's demand, not lost
+        cutInHandler == before[n].up /\ ~after[n].up /\ "kind" \in DOMAIN ev /\ ev.kind \in {"appendReq", "snapReq"}
+                          /\ "j" \in DOMAIN ev /\ ev.j = n /\ "req" \in DOMAIN ev
+    IN IF SameInc(before[n], after[n]) THEN Min(a1, Max(Last(after[n]), after[n].snapIdx))
+       ELSE IF cutInHandler THEN Min(a1, Max(Max(Last(after[n]), after[n].snapIdx), ev.req.prev))
+       ELSE a1
 \* restart after a crash: starts, keeps what it acknowledged, log contiguous with the snapshot, vote not forgotten
 RestartOKStep(gh, before, after, ev) ==
     ("kind" \in DOMAIN ev /\ ev.kind = "restart") =>
